@@ -12,8 +12,10 @@
     1  the sweep's clock: `C10_layerB_clock_monotone`, `SPc.now?`, `C10_layerB_sweep_clock`
     2  exactly the due entries: `C10_layerB_visit_decision`, `C10_layerB_kwRemove_only_if_due`,
        `C10_layerB_sub_only_after_kwRemove`, `C10_layerB_store_only_after_sub`, `C10_layerB_evict_due`,
-       `C10_layerB_never_removes_live_partial` — the full statement is FALSE of the model:
-       `C10_layerB_never_removes_live_counterexample` (a finding)
+       `C10_layerB_never_removes_live_partial`, `C10_layerB_never_removes_live` (the full statement, with the id: it
+       was FALSE while the ticker's delete hook was `store.delete(&key)`; the hook is now
+       `delete_if_key_id_matches` — `applyEvictId` — and the former counterexample run keeps the new incarnation:
+       `C10_layerB_race_keeps_new_incarnation`)
     3  nothing due is left behind: `SweepInv`, `C10_layerB_locked_shard_frozen`, `C10_layerB_sweepInv_step`,
        `C10_layerB_sweepInv`, `C10_layerB_shard_clean_at_end`
     4  the weight is reclaimed: `C10_layerB_kwRemove_found`, `C10_layerB_sub`, `C10_layerB_storeRemove`,
@@ -189,7 +191,7 @@ theorem swB_sub_spec {b b' : BState} {v : Option Nat} {now sh : Nat} {rest : Lis
 theorem swB_store_spec {b b' : BState} {v : Option Nat} {now sh : Nat} {rest : List (Nat × Nat)} {id : Nat} {wk : WKey}
     (hs : b.sw = .store now sh rest id wk) (h : sweeperAct b v = .ok b') :
     storeWritable b wk.key none = true ∧
-    b' = sweepNext { b with g := applyEvict b.g (id, wk.key, wk.weight), wuOwner := none } now sh rest := by
+    b' = sweepNext { b with g := applyEvictId b.g (id, wk.key, wk.weight), wuOwner := none } now sh rest := by
   cases sweeperAct_trans h
   case store n s r i w hs' hw =>
     rw [hs] at hs'; cases hs'
@@ -764,22 +766,9 @@ theorem C10_layerB_evict_due {cfg : Cfg} {now0 : Nat} {seeds : List Nat} {client
     · exact (C10_layerB_sweepInv hr).listed now sh rest (by rw [hs]; rfl) id e (List.mem_of_find?_eq_some hf)
     · rw [hg]; exact AMap.get?_del_same _ _
 
-/-
-  FULL STATEMENT (as asked; FALSE of the model — `C10_layerB_never_removes_live_counterexample` below):
-
-    theorem C10_layerB_never_removes_live (hr : Reach cfg now0 seeds clients b)
-        (h : stepB b (.sweeper v) o = .ok (b', o')) (hk : b.g.store.get? k = some en) (hid : en.id = i)
-        (hne : ∀ en', b'.g.store.get? k = some en' → en'.id ≠ i) :
-        ∃ now sh rest wk, b.sw = .store now sh rest i wk ∧ now ≤ b.g.now ∧ wk.key = k
-
-  What fails is the ID: the delete hook of an eviction is `store.delete(&key)` (`applyEvict` removes the entry of
-  `wk.key` WHATEVER its id), and between the sweeper's `kw.remove` of id `i` and its `store.remove` the key can be
-  deleted and put again under a new id (the worker is not held up by the shard lock once a `put_or_update` has taken
-  the deadline out of the stored value).  Everything else holds: a sweeper action changes the stored entry of `k`
-  only at `store.remove` of a charge `wk` with `wk.key = k`, with a time `now` that is not ahead of the clock, after
-  the index entry `(sh, id)` of the evicted id has been removed.
--/
-/-- the strongest true variant: the id the sweeper evicts need not be the id of the stored entry it removes -/
+/-- the variant without the id (kept from the time when the delete hook was `store.delete(&key)`, see below): a
+    sweeper action changes the stored entry of `k` only at `store.remove` of a charge `wk` with `wk.key = k`, with a
+    time `now` that is not ahead of the clock, after the index entry `(sh, id)` of the evicted id has been removed -/
 theorem C10_layerB_never_removes_live_partial {cfg : Cfg} {now0 : Nat} {seeds : List Nat} {clients : Nat}
     {b b' : BState} {v : Option Nat} {o o' : Oracle} {k : Nat} {en : Entry} (hr : Reach cfg now0 seeds clients b)
     (h : stepB b (.sweeper v) o = .ok (b', o')) (hk : b.g.store.get? k = some en)
@@ -789,16 +778,47 @@ theorem C10_layerB_never_removes_live_partial {cfg : Cfg} {now0 : Nat} {seeds : 
   have hst := sweeperAct_trans (swB_sweeper_step h)
   cases hst
   case store now sh rest id wk hs hw =>
-    simp only [sweepNext_g, applyEvict_store] at hne ⊢
+    simp only [sweepNext_g] at hne ⊢
     by_cases hkey : wk.key = k
     · subst hkey
-      exact ⟨now, sh, rest, id, wk, hs, rfl, C10_layerB_sweep_clock hr now (by rw [hs]; rfl),
-        (C10_layerB_sweepInv hr).gone now sh rest id (by rw [hs]; rfl) (by rw [hs]; rfl), rfl, AMap.get?_del_same _ _⟩
-    · rw [AMap.get?_del_other _ hkey] at hne
+      rcases Cached.applyEvictId_store_cases b.g (id, wk.key, wk.weight) with ⟨_, hst⟩ | ⟨_, hst⟩
+      · rw [hst]
+        exact ⟨now, sh, rest, id, wk, hs, rfl, C10_layerB_sweep_clock hr now (by rw [hs]; rfl),
+          (C10_layerB_sweepInv hr).gone now sh rest id (by rw [hs]; rfl) (by rw [hs]; rfl), rfl,
+          AMap.get?_del_same _ _⟩
+      · rw [hst] at hne
+        exact absurd hk hne
+    · rw [Cached.applyEvictId_get?_other b.g (id, wk.key, wk.weight) (k := k) (fun e => hkey e.symm)] at hne
       exact absurd hk hne
   all_goals first
     | exact absurd hk hne
     | (simp only [sweepNext_g] at hne; exact absurd hk hne)
+
+/-- **The sweeper never removes a live key — FULL statement, with the id.**  If a sweeper action takes the entry with
+    id `i` away from key `k` (afterwards `k` is absent or holds another id), then the sweeper stood at the
+    `store.remove` of an eviction of this very id `i`, charged for this very key, with a time `now` not ahead of the
+    clock.  (With the old delete hook `store.delete(&key)` — `applyEvict` — this was FALSE: the counterexample
+    `C10_layerB_never_removes_live_counterexample` of the earlier version of this file ran `swB_raceRun` below; the
+    ticker's hook is now `delete_if_key_id_matches`, `applyEvictId`, and on that run the new incarnation survives:
+    `C10_layerB_race_keeps_new_incarnation`.) -/
+theorem C10_layerB_never_removes_live {cfg : Cfg} {now0 : Nat} {seeds : List Nat} {clients : Nat}
+    {b b' : BState} {v : Option Nat} {o o' : Oracle} {k i : Nat} {en : Entry} (hr : Reach cfg now0 seeds clients b)
+    (h : stepB b (.sweeper v) o = .ok (b', o')) (hk : b.g.store.get? k = some en) (hid : en.id = i)
+    (hne : ∀ en', b'.g.store.get? k = some en' → en'.id ≠ i) :
+    ∃ now sh rest wk, b.sw = .store now sh rest i wk ∧ now ≤ b.g.now ∧ wk.key = k := by
+  have hne' : b'.g.store.get? k ≠ some en := fun hh => hne en hh hid
+  obtain ⟨now, sh, rest, id, wk, hs, hkey, hnow, _, _, _⟩ := C10_layerB_never_removes_live_partial hr h hk hne'
+  have hst := sweeperAct_trans (swB_sweeper_step h)
+  obtain ⟨_, hb'⟩ := swB_store_spec hs (swB_sweeper_step h)
+  have hidEq : en.id = id := by
+    apply Classical.byContradiction
+    intro hidne
+    have := Cached.applyEvictId_get?_of_id_ne b.g (id, wk.key, wk.weight) hk hidne
+    rw [hb', sweepNext_g] at hne'
+    exact hne' this
+  rw [hid] at hidEq
+  subst hidEq
+  exact ⟨now, sh, rest, wk, hs, hnow, hkey⟩
 
 /-! ## 4  the weight is reclaimed -/
 
@@ -822,33 +842,50 @@ theorem C10_layerB_sub {b b' : BState} {v : Option Nat} {now sh id : Nat} {rest 
   obtain ⟨_, rfl⟩ := swB_sub_spec hs h
   exact ⟨rfl, rfl, rfl, rfl⟩
 
-/-- `store.remove` (the delete hook, `applyEvict`): the stored entry of `wk.key` goes, `weight_used` is released, the
-    sweeper moves on to the next listed entry or to `sweep.end` -/
+/-- `store.remove` (the ticker's delete hook `delete_if_key_id_matches`, `applyEvictId`): the stored entry of `wk.key`
+    goes IF IT STILL CARRIES THE EVICTED ID (otherwise the store is left alone), `weight_used` is released, the
+    sweeper moves on to the next listed entry or to `sweep.end`.
+    (Before the hook checked the id the second conjunct read `b'.g.store = b.g.store.del wk.key`; that is no longer
+    true of the model: on `swB_raceRun` the store is left alone, `C10_layerB_race_keeps_new_incarnation`.) -/
 theorem C10_layerB_storeRemove {b b' : BState} {v : Option Nat} {now sh id : Nat} {rest : List (Nat × Nat)} {wk : WKey}
     (hs : b.sw = .store now sh rest id wk) (h : sweeperAct b v = .ok b') :
-    b'.g = applyEvict b.g (id, wk.key, wk.weight) ∧ b'.g.store = b.g.store.del wk.key ∧ b'.g.adm = b.g.adm ∧
+    b'.g = applyEvictId b.g (id, wk.key, wk.weight) ∧
+    b'.g.store = (if (b.g.store.get? wk.key).map (·.id) = some id then b.g.store.del wk.key else b.g.store) ∧
+    b'.g.adm = b.g.adm ∧
     b'.g.ttl = b.g.ttl ∧ b'.wuOwner = none ∧ b'.sw = (sweepNext b now sh rest).sw := by
   obtain ⟨_, rfl⟩ := swB_store_spec hs h
   refine ⟨sweepNext_g _ _ _ _, ?_, ?_, ?_, ?_, ?_⟩
-  · rw [sweepNext_g]; exact applyEvict_store _ _
-  · rw [sweepNext_g]; exact applyEvict_adm _ _
-  · rw [sweepNext_g]; exact applyEvict_ttl _ _
+  · rw [sweepNext_g]; exact Cached.applyEvictId_store _ _
+  · rw [sweepNext_g]; exact applyEvictId_adm _ _
+  · rw [sweepNext_g]; exact applyEvictId_ttl _ _
   · simp
   · unfold sweepNext; split <;> rfl
+
+/-- the usual case: the key still holds the entry the evicted id was charged for — the entry goes -/
+theorem C10_layerB_storeRemove_matching {b b' : BState} {v : Option Nat} {now sh id : Nat} {rest : List (Nat × Nat)}
+    {wk : WKey} {en : Entry} (hs : b.sw = .store now sh rest id wk) (h : sweeperAct b v = .ok b')
+    (hk : b.g.store.get? wk.key = some en) (hid : en.id = id) :
+    b'.g.store = b.g.store.del wk.key ∧ b'.g.store.get? wk.key = none := by
+  obtain ⟨_, h2, _⟩ := C10_layerB_storeRemove hs h
+  have hm : (b.g.store.get? wk.key).map (·.id) = some id := by rw [hk]; simp [hid]
+  rw [h2, if_pos hm]
+  exact ⟨rfl, AMap.get?_del_same _ _⟩
 
 /-- **The weight of an evicted key is reclaimed.**  The sweeper's three actions of one eviction — `kw.remove` of `id`
     (which finds the charge `wk`), `wu.sub`, `store.remove` — in ANY interleaving: `b0 → b1`, `b2 → b3`, `b4 → b5` are
     the three sweeper actions, `b1 ⇝ b2` and `b3 ⇝ b4` are whatever the other threads do in between (they never move
     the sweeper, `C10_layerB_others_keep_sweeper`, which is all that is assumed of them).  The first removes the charge
     of `id` from `key_weights`, the second subtracts exactly `wk.weight` from the total and takes `weight_used`,
-    the third removes the stored entry of `wk.key`, releases `weight_used` and moves on. -/
+    the third removes the stored entry of `wk.key` if it still carries `id`, releases `weight_used` and moves on. -/
 theorem C10_layerB_reclaims {b0 b1 b2 b3 b4 b5 : BState} {v0 v2 v4 : Option Nat} {now sh id : Nat}
     {rest : List (Nat × Nat)} {wk : WKey} (hs0 : b0.sw = .kwRemove now sh rest id)
     (hk : b0.g.adm.kw.get? id = some wk) (h01 : sweeperAct b0 v0 = .ok b1) (h12 : b2.sw = b1.sw)
     (h23 : sweeperAct b2 v2 = .ok b3) (h34 : b4.sw = b3.sw) (h45 : sweeperAct b4 v4 = .ok b5) :
     (b1.g = { b0.g with adm := { b0.g.adm with kw := b0.g.adm.kw.del id } } ∧ b1.g.adm.kw.get? id = none) ∧
     (b3.g = { b2.g with adm := { b2.g.adm with used := b2.g.adm.used - wk.weight } } ∧ b3.wuOwner = some .sweeper) ∧
-    (b5.g = applyEvict b4.g (id, wk.key, wk.weight) ∧ b5.g.store = b4.g.store.del wk.key ∧ b5.g.adm = b4.g.adm ∧
+    (b5.g = applyEvictId b4.g (id, wk.key, wk.weight) ∧
+      b5.g.store = (if (b4.g.store.get? wk.key).map (·.id) = some id then b4.g.store.del wk.key else b4.g.store) ∧
+      b5.g.adm = b4.g.adm ∧
       b5.wuOwner = none ∧ b5.sw = (sweepNext b4 now sh rest).sw) := by
   obtain ⟨e1, e2, _, _⟩ := C10_layerB_kwRemove_found hs0 hk h01
   have hs2 : b2.sw = .sub now sh rest id wk := by rw [h12, e1]
@@ -1000,7 +1037,7 @@ example (b : BState) (h : runB (BState.init cfgEx 0 [1, 2, 3, 4] 2) swB_sweepRun
   have hr : Reach cfgEx 0 [1, 2, 3, 4] 2 b := reach_runB _ (.init []) h
   ⟨C10_layerB_sweepInv hr, binv_reach hr⟩
 
-/-! ### the counterexample to the full `C10_layerB_never_removes_live` — a FINDING
+/-! ### the race that used to be the counterexample to the full `C10_layerB_never_removes_live`
 
   Key 1 (id 1, deadline 5) expires; the sweeper takes its index entry out and its charge out of `key_weights` and
   stands before `wu.sub`.  Client 0 calls `put_or_update(1, remove_time_to_live)`: its first action takes the
@@ -1008,43 +1045,46 @@ example (b : BState) (h : runB (BState.init cfgEx 0 [1, 2, 3, 4] 2) swB_sweepRun
   worker removes the stored entry, finds no charge and — the stored value having no deadline any more — has no index
   entry to delete, so it is NOT held up by the shard lock and acknowledges.  Client 1 calls `put(1)` again: the worker
   takes it in under id 2, no time-to-live.  Now the sweeper finishes the eviction of id 1: `wu.sub`, then the delete
-  hook `store.delete(&key)` — which removes the NEW entry of key 1 (id 2).  The key has no deadline, was put after
-  an acknowledged delete, and is gone; its charge (id 2, weight 4) stays in `key_weights` and in the total with no
-  stored entry behind it. -/
+  hook.  With the OLD hook `store.delete(&key)` (`applyEvict`) this removed the NEW entry of key 1 (id 2): a key
+  without deadline, put after an acknowledged delete, was gone, and its charge (id 2, weight 4) stayed in
+  `key_weights` and in the total with no stored entry behind it (the former theorems
+  `C10_layerB_never_removes_live_counterexample` / `_false`).  With the ticker's hook `delete_if_key_id_matches`
+  (`applyEvictId`) the entry of key 1 carries id 2 ≠ 1 and STAYS. -/
 def swB_raceRun : List (Act × Oracle) :=
   call 0 (.putW 1 100 3 (some 5)) 4 ++ workerN 7 ++
   [(.advance 10, noO), (.sweeper none, noO), (.sweeper (some 1), noO), (.sweeper none, noO)] ++
   call 0 (.upsert 1 none (some 3) none true) 3 ++ call 1 (.delete 1) 3 ++ workerN 3 ++
   call 1 (.putW 1 111 4 none) 4 ++ workerN 6 ++ [(.sweeper none, noO)]
 
-theorem C10_layerB_never_removes_live_counterexample :
+/-- On the race run the new incarnation (id 2) survives the end of the eviction of id 1, and stays charged; the OLD
+    hook, applied to the same state, would have removed it. -/
+theorem C10_layerB_race_keeps_new_incarnation :
     ∃ b b', Reach cfgEx 0 [1, 2, 3, 4] 2 b ∧ stepB b (.sweeper none) noO = .ok (b', noO) ∧
       b.sw = .store 10 0 [] 1 ⟨1, 1, 3⟩ ∧                          -- the sweeper is evicting id 1 …
       b.g.store.get? 1 = some ⟨111, 2, none, false⟩ ∧              -- … key 1 is stored under id 2, without deadline
-      b'.g.store.get? 1 = none ∧                                   -- … and is removed
-      b'.g.adm.kw.get? 2 = some ⟨1, 1, 4⟩ ∧ b'.g.adm.used = 4 ∧     -- its charge stays, with no stored entry
-      b'.g.ttl = [] := by
+      b'.g.store.get? 1 = some ⟨111, 2, none, false⟩ ∧             -- … and stays
+      b'.g.adm.kw.get? 2 = some ⟨1, 1, 4⟩ ∧ b'.g.adm.used = 4 ∧     -- charged as before
+      b'.g.ttl = [] ∧
+      (applyEvict b.g (1, 1, 3)).store.get? 1 = none := by         -- the old hook would have removed it
   have hrun : ∃ b, runB (BState.init cfgEx 0 [1, 2, 3, 4] 2) swB_raceRun = .ok b ∧
       ∃ b', stepB b (.sweeper none) noO = .ok (b', noO) ∧
       b.sw = .store 10 0 [] 1 ⟨1, 1, 3⟩ ∧ b.g.store.get? 1 = some ⟨111, 2, none, false⟩ ∧
-      b'.g.store.get? 1 = none ∧ b'.g.adm.kw.get? 2 = some ⟨1, 1, 4⟩ ∧ b'.g.adm.used = 4 ∧ b'.g.ttl = [] := by
+      b'.g.store.get? 1 = some ⟨111, 2, none, false⟩ ∧ b'.g.adm.kw.get? 2 = some ⟨1, 1, 4⟩ ∧ b'.g.adm.used = 4 ∧
+      b'.g.ttl = [] ∧ (applyEvict b.g (1, 1, 3)).store.get? 1 = none := by
     refine ⟨_, rfl, _, rfl, rfl, ?_⟩
     decide
   obtain ⟨b, hr, b', hs, hrest⟩ := hrun
   exact ⟨b, b', reach_runB _ (.init []) hr, hs, hrest⟩
 
-/-- hence the full statement (with the id) is false -/
-theorem C10_layerB_never_removes_live_false :
-    ¬ (∀ (b b' : BState) (v : Option Nat) (o o' : Oracle) (k i : Nat) (en : Entry),
-        Reach cfgEx 0 [1, 2, 3, 4] 2 b → stepB b (.sweeper v) o = .ok (b', o') →
-        b.g.store.get? k = some en → en.id = i → (∀ en', b'.g.store.get? k = some en' → en'.id ≠ i) →
-        ∃ now sh rest wk, b.sw = .store now sh rest i wk ∧ now ≤ b.g.now ∧ wk.key = k) := by
-  intro hall
-  obtain ⟨b, b', hr, hs, hsw, hk, hk', _⟩ := C10_layerB_never_removes_live_counterexample
-  obtain ⟨now, sh, rest, wk, hsw', _⟩ := hall b b' none noO noO 1 2 _ hr hs hk rfl
-    (by intro en' h; rw [hk'] at h; cases h)
-  rw [hsw] at hsw'
-  cases hsw'
+/-- the hypotheses of `C10_layerB_never_removes_live` are satisfiable (the ordinary eviction of `swB_sweepRun`: the
+    sweeper at `store.remove` of id 1, key 1 stored under id 1, gone afterwards) -/
+example : swB_at (swB_twoKeys ++ [(.sweeper none, noO), (.sweeper (some 1), noO), (.sweeper none, noO),
+      (.sweeper none, noO)]) (fun b =>
+    (match b.sw with | .store now _ _ id wk => decide (now = 10 ∧ id = 1 ∧ wk.key = 1) | _ => false) &&
+    decide (b.g.store.get? 1 = some ⟨100, 1, some 5, false⟩) &&
+    (match sweeperAct b none with
+     | .ok b' => decide (b'.g.store.get? 1 = none)
+     | _ => false)) = true := by decide
 
 /-- A second race, with the SAME id: `put_or_update(1, ttl 1000)` extends the deadline of key 1 in the stored value
     (to 1010) right after the sweeper has found the old deadline 5 due; the sweeper carries the eviction through and
